@@ -19,8 +19,8 @@ MCCTypes   == {TAX, TAXP, TAY, TBY, AnyType, NoType}
 MCDefaults == {TAX, TBY}
 MCNoRaise  == {<<TAX, TAX>>}
 SimKeys    == {TAX, TAXP, TAS, TBY, TSS}
-SimCTypes  == {TAX, TAXP, TAY, TBY, TBYP, AnyType, NoType}
-SimDefaults == {TAX, TBY, TAY}
+SimCTypes  == {TAX, TAXP, TAY, TBY, NoType}
+SimDefaults == {TAX, TBY}
 
 Keep == UNCHANGED h
 Log  == h' = Append(h, last')
